@@ -7,8 +7,12 @@ par = int(sys.argv[1]) if len(sys.argv) > 1 else 3
 jobs = []
 for f in sorted(glob.glob("/verif/seeded/*/meta.json")):
     m = json.load(open(f))
-    checks = sorted(set([m["breaks_property"]] + m.get("caught_by", [])))
-    jobs.append((m["seed"], m["breaks_property"], checks))
+    own = m["breaks_property"]
+    caught = m.get("caught_by", [])
+    checks = [own] if (own in caught or not caught) else [caught[0]]
+    if m.get("at", "") >= os.environ.get("REEVAL_SINCE", "9999"):
+        continue          # already re-evaluated on the frozen code
+    jobs.append((m["seed"], own, checks))
 def run(job):
     sid, prop, checks = job
     r = subprocess.run(["/verif/tools/eval_seed.py", sid, "/verif/seeded/" + sid, prop] + checks + ["--no-tests"], capture_output=True, text=True)
